@@ -11,9 +11,15 @@ func deleteChildOperator(d *dataTreeNavigator, context Context, expressionNode *
 	if err != nil {
 		return Context{}, err
 	}
+	// a node selected more than once is deleted once (its position names another node afterwards)
+	alreadyDeleted := map[*CandidateNode]bool{}
 	//need to iterate backwards to ensure correct indices when deleting multiple
 	for el := nodesToDelete.MatchingNodes.Back(); el != nil; el = el.Prev() {
 		candidate := el.Value.(*CandidateNode)
+		if alreadyDeleted[candidate] {
+			continue
+		}
+		alreadyDeleted[candidate] = true
 
 		if candidate.Parent == nil {
 			// must be a top level thing, delete it
